@@ -59,7 +59,7 @@ def check_session(inst, side, pw, ids, x, inbounds, acc, do_fresh=True, do_resto
     w = R.pw_scalar(pw)
     F = fam(inst)
     s = inst.new(side, pw, ids, x)
-    got = T.observe(s.start)
+    got = T.observe(T.do_start, s)
     acc.n(states=1, transitions=1)
     desc = {"inst": inst.desc, "side": side, "pw": pw, "ids": list(ids), "x": x}
     # the oracle is built on the scalar the instance reports (the entropy -> scalar mapping is C11's subject)
@@ -91,23 +91,26 @@ def check_session(inst, side, pw, ids, x, inbounds, acc, do_fresh=True, do_resto
                     first = False
                 else:
                     t = inst.new(side, pw, ids, desc["x"])
-                    t.start()
+                    T.do_start(t)
             else:
                 if not do_restored:
                     continue
                 r = T.observe(inst.restore, side, blob[1])
                 acc.n(transitions=1)
+                if r[0] != "ok" and T.style_relaxed():
+                    do_restored = False
+                    continue
                 if r[0] != "ok":
                     acc.violation("C03/%s/%s/restore-raises" % (F, side), {"what": "from_serialized() raises on the instance's own state",
                                   "replay": dict(desc, fn="restore"), "expected": "instance", "observed": r})
                     do_restored = False
                     continue
                 t = r[1]
-            got = T.observe(t.finish, inbound)
+            got = T.observe(T.do_finish, t, inbound)
             acc.n(transitions=1)
             acc.seen((F, side, w if inst.small else (w in (0, 1, R.q - 1)), exp[0] if exp[0] == "key" else exp[1], mode))
             if exp[0] == "key":
-                if got != ("ok", exp[1]):
+                if got != ("ok", exp[1]) and not (got[0] == "exc" and T.style_relaxed()):
                     acc.violation("C03/%s/%s/%s-finish-key" % (F, side, mode),
                                   {"what": "finish() key differs from the published transcript hash",
                                    "replay": dict(desc, fn="finish", inbound=inbound, mode=mode), "expected": exp[1], "observed": got})
@@ -192,6 +195,11 @@ def _any_task(t):
         with T.debug_logging():
             a = _any_task(t[1])
         return a.tag_env("debug-logging")
+    if t[0] == "style":
+        # the same task with the application calling the library in another way (subclass, bytes-like carriers, ...)
+        with T.call_style(t[1]):
+            a = _any_task(t[2])
+        return a.tag_env("style:" + t[1])
     return _sequence_task(t[1]) if t[0] == "seq" else _small_task(t[1])
 
 
@@ -446,11 +454,17 @@ def run(tier, seed):
         for side in "ABS":
             for ch in core.chunks(m, 6):
                 tasks.append((name, side, ch, False))
+    # calling conventions: the same sessions with the application calling the library differently
+    style_pw = [b"", b"a", b"\x00", b"p" * 65] if quick else full[::3]
+    style_tasks = [(n, sd, ch, True) for n in (("T23", "E37") if quick else ("T11", "T23", "T29", "E37", "E53")) if T.try_get(n)[0] is not None
+                   for sd in "ABS" for ch in core.chunks(style_pw, 1 if quick else 4)]
     core.pmerge(_any_task, [("seq", t) for t in reversed([(["T23", "T23'", "T29", "T23^", "T29^", "T11^"],), (["E37", "E37'", "E37^"],),
                                                          (["Params1024", "Params1024'"],), (["Params1024^"],),
                                                          (["ParamsEd25519", "ParamsEd25519'"],), (["ParamsEd25519^"],)])] +
                 [("small", t) for t in tasks] + [("dbg", ("small", t)) for t in tasks if t[0] in ("T23", "E37")] +
-                [("dbg", ("seq", (["Params1024", "ParamsEd25519"],)))], acc)
+                [("dbg", ("seq", (["Params1024", "ParamsEd25519"],)))] +
+                [("style", st, ("small", t)) for st in T.STYLES for t in style_tasks] +
+                [("style", st, ("seq", (["Params1024", "ParamsEd25519"],))) for st in T.STYLES], acc)
     core.pmerge(_ids_task, [(n, s) for n in (["T23", "E37"] if quick else ["T23", "T29", "E37", "E109"]) for s in "ABS"], acc)
     tasks_seq = [(["T23", "T23'", "T29"],), (["E37", "E37'"],), (["Params1024", "Params1024'"],), (["ParamsEd25519", "ParamsEd25519'"],)]
     # shipped
@@ -508,7 +522,7 @@ def replay(rec):
         return T.observe(s.start)
     side, pw, ids, x = r["side"], r["pw"], tuple(r["ids"]), r["x"]
     s = inst.new(side, pw, ids, x)
-    m = T.observe(s.start)
+    m = T.observe(T.do_start, s)
     if r["fn"] == "start":
         return m
     if r["fn"] == "serialize":
@@ -517,4 +531,4 @@ def replay(rec):
         return T.observe(lambda: type(inst.restore(side, s.serialize())).__name__)
     if r.get("mode") == "restored":
         s = inst.restore(side, s.serialize())
-    return T.observe(s.finish, r["inbound"])
+    return T.observe(T.do_finish, s, r["inbound"])
